@@ -46,6 +46,17 @@ def truthy(h, v):
            z3.If(is_list(v), h.llen(V.lref(v)) != 0, True)))))
 
 
+def py_truthy(h, v):
+    """Python truthiness (used for host options such as debug): additionally an empty dict is false"""
+    return z3.If(is_none(v), False,
+           z3.If(is_bool(v), V.b(v),
+           z3.If(is_int(v), V.i(v) != 0,
+           z3.If(is_float(v), V.r(v) != 0,
+           z3.If(is_str(v), z3.Length(V.s(v)) != 0,
+           z3.If(is_list(v), h.llen(V.lref(v)) != 0,
+           z3.If(is_dict(v), h.dnk(V.dref(v)) != 0, True)))))))
+
+
 TYPE_PRED = {
     'number': is_number,
     'string': is_str,
@@ -100,3 +111,74 @@ def fresh_list_is(h, v, bound, n, els):
     r = V.lref(v)
     return z3.And(is_list(v), r >= bound, h.llen(r) == n,
                   z3.ForAll([i], z3.Implies(z3.And(i >= 0, i < n), h.lget(r, i) == z3.Select(els, i))))
+
+
+# ---------------------------------------------------------------------------------------------
+# the value order (C11) — written from the property statement
+# ---------------------------------------------------------------------------------------------
+from pyvc.models_calls import ufun, DATE_FIELD, SORTED_KEYS       # noqa: E402
+from pyvc.models_date import U2L, MKUS                             # noqa: E402
+
+CMP = ufun('CMP', HeapSort, V, V, Int)
+LEX = ufun('LEX', HeapSort, V, V, Int, Int)        # arrays from index k on
+DLEX = ufun('DLEX', HeapSort, V, V, Int, Int)      # objects: sorted key/value pairs from index k on
+
+
+def sgn_int(a, b):
+    return z3.If(a < b, -1, z3.If(a == b, 0, 1))
+
+
+def sgn_str(a, b):
+    return z3.If(a < b, -1, z3.If(a == b, 0, 1))
+
+
+def type_name(v):
+    """systemType's names; 'unknown' for host objects"""
+    def s(x):
+        return z3.StringVal(x)
+    return z3.If(is_none(v), s('null'), z3.If(is_str(v), s('string'), z3.If(is_bool(v), s('boolean'),
+           z3.If(is_number(v), s('number'), z3.If(is_date(v), s('datetime'), z3.If(is_dict(v), s('object'),
+           z3.If(is_list(v), s('array'), z3.If(is_func(v), s('function'), z3.If(is_regex(v), s('regex'), s('unknown'))))))))))
+
+
+def norm_us(v):
+    """the local naive instant a date/datetime denotes"""
+    us = V.us(v)
+    return z3.If(V.kind(v) == 1, us, z3.If(V.kind(v) == 2, U2L(us),
+                 MKUS(DATE_FIELD['year'](us), DATE_FIELD['month'](us), DATE_FIELD['day'](us), 0, 0, 0, 0)))
+
+
+def heap_of(H):
+    return Heap.of_term(H, z3.IntVal(0))
+
+
+def cmp_def(H, a, b):
+    """CMP(H, a, b) unfolded once"""
+    return z3.If(is_none(a), z3.If(is_none(b), 0, -1),
+           z3.If(is_none(b), 1,
+           z3.If(z3.And(is_str(a), is_str(b)), sgn_str(V.s(a), V.s(b)),
+           z3.If(z3.And(is_bool(a), is_bool(b)), sgn_int(z3.If(V.b(a), 1, 0), z3.If(V.b(b), 1, 0)),
+           z3.If(z3.And(is_number(a), is_number(b)), sgn_int(num(a), num(b)),
+           z3.If(z3.And(is_date(a), is_date(b)), sgn_int(norm_us(a), norm_us(b)),
+           z3.If(z3.And(is_list(a), is_list(b)), LEX(H, a, b, 0),
+           z3.If(z3.And(is_dict(a), is_dict(b)), DLEX(H, a, b, 0),
+                 sgn_str(type_name(a), type_name(b))))))))))
+
+
+def lex_def(H, a, b, k):
+    h = heap_of(H)
+    ra, rb = V.lref(a), V.lref(b)
+    na, nb = h.llen(ra), h.llen(rb)
+    c = CMP(H, h.lget(ra, k), h.lget(rb, k))
+    return z3.If(z3.Or(k >= na, k >= nb), sgn_int(na, nb), z3.If(c != 0, c, LEX(H, a, b, k + 1)))
+
+
+def dlex_def(H, a, b, k):
+    h = heap_of(H)
+    ra, rb = V.dref(a), V.dref(b)
+    na, nb = h.dnk(ra), h.dnk(rb)
+    ka, kb = z3.Select(SORTED_KEYS(H, ra), k), z3.Select(SORTED_KEYS(H, rb), k)
+    ck = CMP(H, VStr(ka), VStr(kb))
+    cv = CMP(H, h.dget(ra, ka), h.dget(rb, kb))
+    return z3.If(z3.Or(k >= na, k >= nb), sgn_int(na, nb),
+                 z3.If(ck != 0, ck, z3.If(cv != 0, cv, DLEX(H, a, b, k + 1))))
